@@ -165,7 +165,12 @@ def poolStep (p : Pool) (args : List String) : Pool × String :=
   | "withdraw" :: w :: nonce :: sig :: rest =>
     match int? nonce, findInt "now" rest, findStr "settle" rest with
     | some nonce, some now, some st =>
-      let (p', r) := p.Withdraw (sigOk sig) (tok w) nonce now (st == "ok")
+      let during : Option (String × Int) := match findStr "during" rest with
+        | some d => (match d.splitOn ":" with
+          | [n, a] => (a.toInt?).map (fun a => (tok n, a))
+          | _ => none)
+        | none => none
+      let (p', r) := p.WithdrawDuring (sigOk sig) (tok w) nonce now (st == "ok") during
       match r with
       | .ok pay => (p', s!"ok paid={pay}")
       | .error e => (p', showPoolErr e)
